@@ -185,8 +185,16 @@ def tlc_trace(ctx, traces, conform, name):
             lines.append(dumps(e))
             owner.append((ti, li))
     text = "\n".join(lines) + "\n"
-    r = ctx.tlc("OutStreamTrace", cfg="OutStreamTrace.cfg" if conform else "OutStreamTrace_mon.cfg",
-                workers=1, deadlock=False, files={"trace.ndjson": text}, name=name,
+    files = {"trace.ndjson": text}
+    cfgname = "OutStreamTrace.cfg" if conform else "OutStreamTrace_mon.cfg"
+    if conform and traces and not traces[0][0].get("intlock", True):
+        # the code under test broadcasts in InterruptGetNext without taking messagesMu
+        # (probed by the harness): conformance is checked against that shape of the model
+        with open(os.path.join(vlib.SPEC, "OutStreamTrace.cfg")) as fh:
+            files["OutStreamTrace_nolock.cfg"] = fh.read().replace("LockedInterrupt = TRUE", "LockedInterrupt = FALSE")
+        cfgname = "OutStreamTrace_nolock.cfg"
+    r = ctx.tlc("OutStreamTrace", cfg=cfgname,
+                workers=1, deadlock=False, files=files, name=name,
                 timeout=1200, heap="3g")
     m = re.search(r'<<"MATCHED", (\d+), "OF", (\d+)>>', r.out)
     if r.timed_out or not m:
@@ -285,7 +293,7 @@ def hist_to_program(hist, name, f):
     threads = [[] for _ in range(nthreads)]
     for h in hist:
         a, t, arg = h["a"], h["t"], h["arg"]
-        if a == "W":
+        if a in ("W", "Wreg"):
             continue
         if a == "Add":
             op = {"op": "Add", "id": f[arg], "n": 1 + (arg * 7 + t) % 5}
@@ -323,13 +331,14 @@ def compare_replay(hist, f, prog, trace, tamper=None):
         post = h["post"]
         exp = {
             "t": h["t"], "a": h["a"], "pos": h["pos"],
-            "arg": (h["arg"] if h["a"] in ("Cancel", "Interrupt", "W") else m2r(h["arg"])),
+            "arg": (h["arg"] if h["a"] in ("Cancel", "Interrupt", "W", "Wreg") else m2r(h["arg"])),
             "ret.k": h["ret"]["k"],
             "ret.id": (m2r(h["ret"]["id"]) if h["ret"]["k"] in ("next", "got", "miss") else None),
             "db": sorted([m2r(a), m2r(b)] for a, b in post["db"]),
             "tail": m2r(post["tail"]),
             "cache": sorted([m2r(a), m2r(b)] for a, b in post["cache"]),
             "parked": sorted(post["waiting"]),
+            "holder": post["holder"],
         }
         if tamper:
             tamper(k, exp)
@@ -341,8 +350,9 @@ def compare_replay(hist, f, prog, trace, tamper=None):
             "tail": e["tail"],
             "cache": sorted([a, b] for a, b in zip(e["ckeys"], e["cnext"])),
             "parked": sorted(e["parked"]),
+            "holder": e["holder"],
         }
-        for fld in ("t", "a", "arg", "pos", "ret.k", "ret.id", "db", "tail", "cache", "parked"):
+        for fld in ("t", "a", "arg", "pos", "ret.k", "ret.id", "db", "tail", "cache", "parked", "holder"):
             if exp[fld] != got[fld]:
                 return (k, fld, exp[fld], got[fld])
         if e["panic"] or e["bad"] or e["tailnext"] != -1:
@@ -369,9 +379,26 @@ def core_programs(limit):
         [[A(a), A(b), D(b), A(c), D(a)], [N(b)], [G(a), N(a)]],
         # two readers, compaction of everything
         [[A(a), A(b), D(a), D(b), A(c)], [N(0), N(a)], [N(b), I]],
+        # cancellation + InterruptGetNext at every scheduling point of the reader's
+        # critical sections (inner mode, see with_inner)
+        [[A(a)], [N(a)], [C(2), I]],
+        [[I], [N(0)], [C(2), I]],
+        [[A(a)], [N(0), N(a)], [C(2), I, C(2), I]],
+        [[C(3), I], [N(0)], [N(0)]],
     ]
-    return [{"name": "core-%d" % i, "threads": t, "mode": "dfs", "limit": limit, "seed": 1000 + i}
+    return [with_inner({"name": "core-%d" % i, "threads": t, "mode": "dfs", "limit": limit, "seed": 1000 + i})
             for i, t in enumerate(progs)]
+
+
+def with_inner(prog):
+    """Programs that cancel a context are run with the scheduling points inside the
+    critical sections switched on (before every cacheMu acquisition; the entry of
+    Cond.Wait always is one): a cancellation -- and InterruptGetNext if the code under
+    test broadcasts lock-free -- can then land between the reader's lookups, its
+    context check and its registration as a waiter."""
+    if any(op["op"] == "Cancel" for ops in prog["threads"] for op in ops):
+        prog["inner"] = True
+    return prog
 
 
 def random_program(rng, k, limit):
@@ -418,8 +445,8 @@ def random_program(rng, k, limit):
             mx.append({"op": "Get", "id": pos()})
     if any(o["op"] == "Cancel" for o in mx) and rng.random() < 0.7:
         mx.append({"op": "Interrupt"})
-    return {"name": "rnd-%d" % k, "threads": [w, rd, mx], "mode": "dfs", "limit": limit,
-            "seed": rng.randrange(1 << 30)}
+    return with_inner({"name": "rnd-%d" % k, "threads": [w, rd, mx], "mode": "dfs", "limit": limit,
+                       "seed": rng.randrange(1 << 30)})
 
 
 # --------------------------------------------------------------------------- verdicts
@@ -541,7 +568,7 @@ def _selftest(ctx, binv, tmpd, full):
             "threads": [[{"op": "Add", "id": 7, "n": 2}, {"op": "Add", "id": 9, "n": 1}, {"op": "Delete", "id": 7}],
                         [{"op": "GetNext", "id": 7}, {"op": "Get", "id": 9}],
                         [{"op": "Cancel", "t": 2}]],
-            "sched": [1, 2, 2, 1, 2, 1, 2, 3]}
+            "sched": [1, 2, 2, 2, 1, 2, 1, 2, 3]}
     traces, _ = run_sched(ctx, binv, [prog], tmpd, 1, "selftest")
     base = traces[0]
     r0m = tlc_trace(ctx, [base], False, "st-base-mon")
@@ -628,8 +655,11 @@ def run(ctx):
     rng = random.Random(ctx.seed * 1000003 + 8)
     ctx.assumptions += [
         "TLC, SANY, pcal, the Go toolchain with -overlay, goleveldb",
-        "harness/vsync: running goroutines one at a time and yielding before every acquisition of messagesMu and in Cond.Wait "
-        "explores all behaviours of the real RWMutex/Cond at critical-section granularity (cacheMu sections are nested in them)",
+        "harness/vsync: running goroutines one at a time and yielding before every acquisition of messagesMu, on entry to "
+        "Cond.Wait (lock held, not yet a waiter) and after registration explores all behaviours of the real RWMutex/Cond at "
+        "critical-section granularity; lock-free events (context cancellation; Broadcast without messagesMu if the code "
+        "under test does that, observed at run time) are additionally interleaved before every cacheMu acquisition "
+        "inside the critical sections in the programs that cancel",
         "the projection in harness/outputstream (LevelDB iterator, lastseen, messagesCache, vsync positions) and the Go "
         "comparison of returned messages with the added ones",
         "bounded: TLC exhaustive for ids 1..3, 2 readers, 1 adder, 1 deleter, 1 getter/interrupter/canceller; larger programs by "
@@ -666,6 +696,15 @@ def stage_tlc_replay(ctx, cfg, rng, binv, tmpd):
     cands = parse_printed(r_uf, "CANDIDATE")
     cands.sort(key=lambda h: (len(h), json.dumps(h)))
     cands = cands[:cfg["max_cand"]]
+    # ... and of the model whose InterruptGetNext broadcasts lock-free (lost wake-up)
+    r_nl = ctx.tlc("OutStream", cfg="OutStream_nolock.cfg", workers=1, timeout=300, deadlock=False, name="design-nolock")
+    if not r_nl.finished or r_nl.invariant_violated or r_nl.error:
+        raise vlib.Inconclusive("TLC on OutStream_nolock.cfg failed:\n" + "\n".join(r_nl.out.splitlines()[-20:]))
+    cands_nl = parse_printed(r_nl, "CANDIDATE")
+    cands_nl.sort(key=lambda h: (len(h), json.dumps(h)))
+    if not cands_nl:
+        raise vlib.Inconclusive("OutStream_nolock.cfg printed no candidate")
+    cands += cands_nl[:cfg["max_cand"]]
     r_sim = ctx.tlc("OutStream", cfg="OutStream_sim.cfg", workers=1, simulate="num=%d" % cfg["sim_num"],
                     depth=cfg["sim_depth"], deadlock=False, name="design-sim", timeout=600)
     if not r_sim.ok:
@@ -698,7 +737,8 @@ def stage_tlc_replay(ctx, cfg, rng, binv, tmpd):
     traces, _ = run_sched(ctx, binv, plist, tmpd, cfg["par"], "replay")
     if len(traces) != len(plist):
         raise vlib.Inconclusive("replayed %d programs, got %d traces" % (len(plist), len(traces)))
-    ctx.log("replayed %d TLC behaviours + %d pinned-tree candidates on the real code" % (len(behs), len(cands)))
+    ctx.log("replayed %d TLC behaviours + %d defect-model candidates (pinned tree, lock-free Interrupt) on the real code" % (
+        len(behs), len(cands)))
     res = validate(ctx, traces, "tlc-replay", cfg["par"])
     res.update(programs=programs, expect=expect, nbeh=len(behs), ncand=len(cands), r_uf=r_uf)
     return res
@@ -800,8 +840,9 @@ def _run(ctx, cfg, rng, binv, binp, tmpd):
     ctx.cov["tlc_unfixed_candidates"] = res["ncand"]
     ctx.add("states", res["r_uf"].distinct)
     ctx.add("transitions", res["r_uf"].generated)
-    ctx.add("tlc_runs", 2)
+    ctx.add("tlc_runs", 3)
     traces, programs = res["traces"], res["programs"]
+    ctx.cov["interrupt_takes_lock_probed"] = bool(traces[0][0].get("intlock", True))
     ctx.cov["schedules_replayed"] = len(traces)
     bad = apply_validation(ctx, res, programs, "tlc-replay")
     ctx.cov["replay_divergences"] = compare_stage(ctx, res, bad, "tlc-replay")
